@@ -9,7 +9,7 @@
   operations, legal or not — in particular every order of `release`, `kill`, `move`, `killseq`,
   `killw`, `releasemon`, `killtracer` interleaved with calls and queries.
 -/
-import TrompModel.Lemmas.Move
+import TrompModel.Lemmas.InvChain
 
 namespace Tromp.C14
 open Tromp World
@@ -108,6 +108,112 @@ theorem selected_unique_reachable {w : World} (h : Reachable w) (o f : Nat) (m :
     (h1 : IsDesignated (w.expMatches a) w.expOrder (m.active f) e)
     (h2 : IsDesignated (w.expMatches a) w.expOrder (m.active f) e') : e = e' :=
   IsDesignated.unique (reachable_nodup h o f m hm) h1 h2
+
+/-! ### handles and sequences -/
+
+theorem run_WFSeq (ops : List Op) : ∀ {w : World}, WFSeq w → WFSeq (w.run ops).1 := by
+  induction ops with
+  | nil => intro w h; exact h
+  | cons op ops ih =>
+    intro w h
+    simp only [World.run]
+    exact ih (h.step op)
+
+/-- the handle ↔ sequence invariant holds in every reachable world. -/
+theorem reachable_WFSeq {w : World} (h : Reachable w) : WFSeq w := by
+  obtain ⟨ops, rfl⟩ := h
+  exact run_WFSeq ops WFSeq.init
+
+/-- **C14, no dangling handle.**  Whatever a sequence object's handle list names is a live
+    expectation or destruction requirement that registered in exactly this sequence; the list has
+    no duplicates.  So `cost`, `retire_until`, `validate_match` and `is_completed` never follow a
+    handle of a destroyed owner, whatever the order of destructions was. -/
+theorem no_dangling_handle {w : World} (h : Reachable w) (s : Nat) (ow : Owner) (hin : ow ∈ w.pendingOf s) :
+    w.ownerAlive ow = true ∧ s ∈ w.ownerSeqs ow ∧ (w.pendingOf s).Nodup :=
+  ⟨((reachable_WFSeq h).pend s ow hin).1, ((reachable_WFSeq h).pend s ow hin).2, (reachable_WFSeq h).nodup s⟩
+
+/-- **C14, a destroyed owner is in no sequence**: after `release` (or `releasemon`) no sequence
+    mentions the expectation (requirement) any more. -/
+theorem destroyed_owner_in_no_sequence {w : World} (h : Reachable w) (ow : Owner) (hd : w.ownerAlive ow = false) (s : Nat) :
+    ow ∉ w.pendingOf s := fun hin => by
+  have := ((reachable_WFSeq h).pend s ow hin).1
+  rw [hd] at this; cases this
+
+/-- **C14, a destroyed sequence object holds no handle** — the handles that outlive it were
+    detached (sequence.hpp:286-309), so none of them refers to it any more; `handleCost` of such
+    a handle is 0: it imposes no order. -/
+theorem destroyed_sequence_detached {w : World} (h : Reachable w) (s : Nat) (hd : w.seqAlive s = false) :
+    w.pendingOf s = [] ∧ ∀ ow, w.handleCost ow s = some 0 := by
+  refine ⟨(reachable_WFSeq h).dead s hd, fun ow => ?_⟩
+  simp [World.handleCost, hd]
+
+/-- the registration hypothesis of C06's theorems (`hreg`) holds in every reachable world. -/
+theorem reachable_hreg {w : World} (h : Reachable w) (e : Nat) (x : Exp) (hx : w.exps e = some x) :
+    ∀ s, Owner.exp e ∈ w.pendingOf s → s ∈ x.seqs := by
+  intro s hin
+  have := ((reachable_WFSeq h).pend s _ hin).2
+  simpa [World.ownerSeqs, hx] using this
+
+
+/-! ### watched objects, destruction requirements, tracers -/
+
+theorem run_WFChain (ops : List Op) : ∀ {w : World}, WFChain w → WFChain (w.run ops).1 := by
+  induction ops with
+  | nil => intro w h; exact h
+  | cons op ops ih => intro w h; simp only [World.run]; exact ih (h.step op)
+
+theorem run_WFTr (ops : List Op) : ∀ {w : World}, WFTr w → WFTr (w.run ops).1 := by
+  induction ops with
+  | nil => intro w h; exact h
+  | cons op ops ih => intro w h; simp only [World.run]; exact ih (h.step op)
+
+theorem reachable_WFChain {w : World} (h : Reachable w) : WFChain w := by
+  obtain ⟨ops, rfl⟩ := h
+  exact run_WFChain ops WFChain.init
+
+theorem reachable_WFTr {w : World} (h : Reachable w) : WFTr w := by
+  obtain ⟨ops, rfl⟩ := h
+  exact run_WFTr ops WFTr.init
+
+/-- **C14, the object's chain names only live requirements of this very object** — so
+    `~deathwatched` (lifetime.hpp:142-157) notifies no destroyed monitor, in any history. -/
+theorem no_dangling_requirement {w : World} (h : Reachable w) (x m : Nat) (y : Watched) (hy : w.watched x = some y)
+    (hin : m ∈ y.monitors) : ∃ mon, w.mons m = some mon ∧ mon.alive = true ∧ mon.died = false ∧ mon.target = x :=
+  (reachable_WFChain h).chain x y m hy hin
+
+/-- **C14, a live, un-notified requirement's object is alive** and has the requirement on its
+    chain — so `~lifetime_monitor` (lifetime.hpp:92-102), which unchains itself from the object
+    exactly when it was not notified, never writes into a destroyed object; and if the object died
+    first the requirement was notified (`died`) and leaves the object alone. -/
+theorem requirement_target_alive {w : World} (h : Reachable w) (m : Nat) (mon : Mon) (hm : w.mons m = some mon)
+    (ha : mon.alive = true) (hd : mon.died = false) :
+    ∃ y, w.watched mon.target = some y ∧ y.alive = true ∧ m ∈ y.monitors :=
+  (reachable_WFChain h).home m mon hm ha hd
+
+/-- contrapositive: once the object is dead every requirement that was on it has been notified. -/
+theorem dead_object_notified_all {w : World} (h : Reachable w) (m : Nat) (mon : Mon) (hm : w.mons m = some mon)
+    (ha : mon.alive = true) (y : Watched) (hy : w.watched mon.target = some y) (hdead : y.alive = false) :
+    mon.died = true := by
+  cases hd : mon.died with
+  | true => rfl
+  | false =>
+    obtain ⟨y', hy', hal, _⟩ := requirement_target_alive h m mon hm ha hd
+    rw [hy] at hy'; cases hy'; rw [hdead] at hal; cases hal
+
+/-- **C14, a destroyed object has an empty chain.** -/
+theorem dead_object_empty_chain {w : World} (h : Reachable w) (x : Nat) (y : Watched) (hy : w.watched x = some y)
+    (hd : y.alive = false) : y.monitors = [] :=
+  (reachable_WFChain h).deadW x y hy hd
+
+/-- **C14, the tracer stack** holds each live tracer once; destroying tracers in any order never
+    leaves a destroyed tracer on it (`killtracer` removes exactly that tracer, wherever it is). -/
+theorem tracer_stack_sound {w : World} (h : Reachable w) : w.tracers.Nodup ∧ ∀ t ∈ w.tracers, t < w.nextT :=
+  ⟨(reachable_WFTr h).nodup, (reachable_WFTr h).bound⟩
+
+theorem killed_tracer_gone (w : World) (t : Nat) (hl : w.legal (.killtracer t) = true) :
+    t ∉ (w.step (.killtracer t)).1.tracers := by
+  simp [World.step, hl]
+
 
 /-! ### moving a mock object -/
 
